@@ -207,6 +207,17 @@ class VSuper(V):
     self.obj = obj
 
 
+class VSnap(V):
+  """Immutable snapshot of a container's contents (spec only): dict -> (dom, val), list -> (len, items)."""
+  pyonly = True
+
+  def __init__(self, how, a, b, elem=None):
+    self.how = how      # 'dict' | 'list'
+    self.a = a
+    self.b = b
+    self.elem = elem
+
+
 class Raised(object):
   """Marker returned by evaluation when an exception propagates."""
 
